@@ -81,6 +81,13 @@ func runC09(run *Run, replay string) {
 								Detail: fmt.Sprintf("parent %s, nested %s", parent.Addr.String(), t.Addr.String()), Replay: locWith(loc, q)})
 						}
 					}
+					if sc.Kind == "tf" && parent.Type.IsObjectType() && len(t.Addr) == len(parent.Addr)+1 && len(parent.Addr) > 0 {
+						// the target's type is the type of the value: what is nested in it is an attribute of that type
+						if as, ok := t.Addr[len(t.Addr)-1].(lang.AttrStep); ok && !parent.Type.HasAttribute(as.Name) {
+							run.Violate(Violation{Key: "C09/nested-target-not-an-attribute-of-the-parents-type", Rule: "a target's type is the declared/inferred type of the value", Func: "CollectReferenceTargets",
+								Detail: fmt.Sprintf("%s is nested in %s, whose type %s has no attribute %q", t.Addr.String(), parent.Addr.String(), parent.Type.FriendlyName(), as.Name), Replay: locWith(loc, q)})
+						}
+					}
 					if len(parent.LocalAddr) > 0 && len(t.LocalAddr) > 0 && sc.Kind == "tf" {
 						if len(t.LocalAddr) != len(parent.LocalAddr)+1 || !strings.HasPrefix(t.LocalAddr.String(), parent.LocalAddr.String()) {
 							run.Violate(Violation{Key: "C09/nested-local-address-not-one-step", Rule: "nested targets extend their parent's (local) address by exactly one step", Func: "CollectReferenceTargets",
